@@ -24,7 +24,7 @@ PROPS = {
             "quick": [P("main", "asan", 1600)],
             "thorough": [P("main", "asan", 16000), P("memcheck", "opt", 640, runner="valgrind", chunk=20, timeout=3600)],
         },
-        "require_counters": ["single_minterm", "collection", "constant", "edge_for_var", "points_evaluated"],
+        "require_counters": ["single_minterm", "collection", "constant", "edge_for_var", "points_evaluated", "wide_variable_shapes"],
         "assumptions": ASSUME_COMMON,
     },
     "C04": {
@@ -128,7 +128,7 @@ PROPS = {
             "quick": [P("main", "asan", 2000)],
             "thorough": [P("main", "asan", 20000)],
         },
-        "require_counters": ["full_iterations", "masked_iterations", "masks_selecting_proper_subset", "cardinalities", "graph_counts"],
+        "require_counters": ["full_iterations", "masked_iterations", "masks_selecting_proper_subset", "cardinalities", "graph_counts", "wide_variable_shapes"],
         "assumptions": ASSUME_COMMON,
     },
     "C15": {
@@ -143,7 +143,7 @@ PROPS = {
             "quick": [P("main", "asan", 1500)],
             "thorough": [P("main", "asan", 15000)],
         },
-        "require_counters": ["huge_cases", "lookups_beyond_2^31", "conversions", "lookups_in_range", "lookups_out_of_range", "empty_sets", "full_sets", "audit_index_cardinalities"],
+        "require_counters": ["huge_cases", "lookups_beyond_2^31", "conversions", "lookups_in_range", "lookups_out_of_range", "empty_sets", "full_sets", "audit_index_cardinalities", "wide_variable_shapes"],
         "assumptions": ASSUME_COMMON,
     },
     "C09": {
@@ -208,7 +208,7 @@ PROPS = {
             "quick": [P("main", "asan", 1500)],
             "thorough": [P("main", "asan", 15000)],
         },
-        "require_counters": ["files_written", "reads_same-forest", "reads_other-forest", "reads_forest-from-file", "domains_read_back", "reads_domain-and-forest-from-file", "empty_root_lists", "refcounts_checked"],
+        "require_counters": ["files_written", "reads_same-forest", "reads_other-forest", "reads_forest-from-file", "domains_read_back", "reads_domain-and-forest-from-file", "empty_root_lists", "refcounts_checked", "wide_variable_shapes"],
         "assumptions": ASSUME_COMMON,
     },
     "C02": {
@@ -226,7 +226,7 @@ PROPS = {
             "thorough": [P("main", "asan", 4000)],
         },
         "require_counters": ["audit_nodes", "audit_primed_nodes", "audit_singleton_edge_checks", "audit_stored_sparse", "audit_stored_full",
-                             "refcounts_checked", "cachecount_audits", "script_binops", "script_copies", "script_churns", "handles_reissued"],
+                             "refcounts_checked", "cachecount_audits", "script_binops", "script_copies", "script_churns", "handles_reissued", "wide_variable_shapes"],
         "assumptions": ASSUME_COMMON,
     },
     "C01": {
@@ -259,7 +259,7 @@ PROPS = {
             "quick": [P("main", "asan", 300)],
             "thorough": [P("main", "asan", 1500)],
         },
-        "require_counters": ["configurations_run", "memman:orig_grid", "memman:array_grid", "memman:malloc", "memman:heap", "storage:1", "storage:2", "deletion:1", "deletion:2"],
+        "require_counters": ["configurations_run", "memman:orig_grid", "memman:array_grid", "memman:malloc", "memman:heap", "storage:1", "storage:2", "deletion:1", "deletion:2", "wide_variable_shapes"],
         "assumptions": ASSUME_COMMON,
     },
     "C07": {
